@@ -122,6 +122,17 @@ def iterator(ctx, lib, which):
     _run(ctx, "iterator-" + which, ctx.cfg, fn)
 
 
+def stability_check(ctx, lib):
+    """Adf::stability_check as the acceptance test of the counting-guided and the nogood search: the C03.F-check obligations of that function (reduct built from the
+    candidate itself, grounded_internal of the reduct, comparison at every position)"""
+    from rules import C03
+
+    def fn(c):
+        C03.F_check(c, lib)
+        c.obligations = [o for o in c.obligations if str(o.key).startswith("stability_check")]
+    _run(ctx, "stability_check", ctx.cfg, fn)
+
+
 def semantics_base(ctx, lib):
     """everything an answer computed from a parsed ADF on any back-end rests on"""
     kernel_build(ctx, lib)
